@@ -48,8 +48,13 @@ def known_for(prop):
 
 def write_replay(prop, tier, seed, viol):
     os.makedirs(REPLAYS, exist_ok=True)
+    case = viol["case"]
+    for v in viol["violations"]:
+        if isinstance(v, dict) and v.get("replay_case"):
+            case = v["replay_case"]         # a smaller self-contained case (e.g. one sub-case of a Miri batch)
+            break
     body = {"property": prop, "tier": tier, "seed": seed, "tree_hash": build.tree_hash(),
-            "case": viol["case"], "violations": viol["violations"]}
+            "case": case, "violations": viol["violations"]}
     h = hashlib.sha256(json.dumps(body["case"], sort_keys=True).encode()).hexdigest()[:12]
     path = os.path.join(REPLAYS, "%s-%s.json" % (prop, h))
     with open(path, "w") as f:
@@ -113,6 +118,7 @@ def cmd_check(args):
     # 2. deterministic fixed cases of the property (regressions of repaired defects etc.)
     fixed_cases = getattr(mod, "fixed_cases", lambda tier: [])(tier)
     fixed_run = 0
+    fixed_sub = {}
     for case in fixed_cases:
         try:
             out = mod.run_case(case)
@@ -120,6 +126,8 @@ def cmd_check(args):
             print("INFRA: fixed case failed: %s" % e)
             return 2
         fixed_run += 1
+        for k, v in out.sub.items():
+            fixed_sub[k] = fixed_sub.get(k, 0) + v
         if not out.ok:
             path = write_replay(prop, tier, seed, {"case": case, "violations": out.violations[:5]})
             print("VIOLATION property=%s replay=%s" % (prop, path))
@@ -210,6 +218,7 @@ def cmd_check(args):
             "sub_evaluations": sub,
             "labels": labels,
             "fixed_cases_run": fixed_run,
+            "fixed_cases_sub_evaluations": fixed_sub,
             "coverage_sets": {k: {"covered": len(v), "of": getattr(mod, "COVER_TOTALS", {}).get(k)} for k, v in cover.items()},
             "excluded_by_known_finding": excluded,
             "known_findings_reproduced": known_lines,
